@@ -16,8 +16,8 @@ const ruleW3C15 = "one evaluation = one seeded simulated history of pkg/policy's
 	"kinds/types, contested scheduling decisions)."
 
 const ruleW3C16 = "one evaluation = one simulated history as for C15 (same generator); after everything is delivered and one full synchronisation has run, and " +
-	"provided the galaxy-owned state equals the expected compiled state (otherwise the run is counted under c16.skipped-unconverged: that is C15's " +
-	"finding), every flow in {pod of this node} x {every other pod with an address, 5 fixed external addresses, one address inside every ipBlock " +
+	"unless the node failed to converge for a reason that C15 reports as a known finding (stale leftovers D8/S1/S3; counted under " +
+	"c16.skipped-c15-known), every flow in {pod of this node} x {every other pod with an address, 5 fixed external addresses, one address inside every ipBlock " +
 	"exception} x {to, from} x {tcp, udp} x {every port the generator uses, one unused port} is judged twice: by a packet walk over iptables-save + " +
 	"ipset save of the simulated kernel (NEW connection through FORWARD into GLX-EGRESS / GLX-INGRESS in the order FORWARD jumps to them; hash:net " +
 	"nomatch honoured) and by a reference evaluator of the NetworkPolicy API semantics; all verdicts must agree (coverage counter c16.flows = " +
